@@ -2718,7 +2718,15 @@ def oracle_ledger(case):
                 labels.add('op_skipped')
                 continue
             # another surface from the arrays / the Box the caller still holds (whatever they contain by now)
-            g3 = am.defect.GammaSurface(box=box, **held)
+            try:
+                g3 = am.defect.GammaSurface(box=box, **held)
+            except ValueError as e:
+                # what the caller's overwritten arrays hold by now need not be a valid pair of shift vectors
+                # (a four-index vector with u+v+t != 0, parallel vectors): the documented refusal
+                if dirty & {'a1vect', 'a2vect'}:
+                    labels.add('op_refused_after_overwrite')
+                    continue
+                raise
             r = g3.E_gsf(a1=Q['u'], a2=Q['v'])
             ledger.append((what, 'new.E_gsf', r, _copy_of(r)))
             what += ': another surface built from the caller\'s arrays%s' % ('' if box is None else ' and Box')
